@@ -22,6 +22,7 @@ void vifs_read(vifs *f, char *buf, long n);
 void vifs_seekg(vifs *f, long p);
 long vifs_tellg(vifs *f);
 void vifs_open_ate(vifs *f);
+size_t verif_strnlen(const char *s, size_t n);
 '''
 
 
@@ -35,11 +36,16 @@ def rules():
     r.add("R9.ifs.open", r"\binfile\.is_open\(\)", "vifs_is_open(infile)")
     r.add("R9.ifs.ctor", r"std::ifstream infile\(t_filename\.c_str\(\), std::ios::in \| std::ios::ate \| std::ios::binary\);", "vifs_open_ate(infile);")
     r.add("R6.streamsize", r"\(std::streamsize\)", "(long)")
-    r.add("R6.streampos0", r"\bstd::streampos\(0\)", "0")
+    r.add("R6.streampos0", r"\bstd::streampos\((\d+)\)", r"\1")
     r.add("R0.assert", r"\bassert\(", "VERIF_CASSERT(")
     r.add("R9.str.empty", r"\breturn std::string\(\);", "{ out->len = 0; return; }")
     r.add("R9.vec.ctor", r"std::vector<char> v\(\(size_t\)\(size\)\);", "char *v = out->data; out->len = (size_t)(size); VERIF_STD_PRE(out->len <= out->cap, \"ghost result buffer large enough\");")
     r.add("R9.str.range", r"\breturn std::string\(v\.begin\(\), v\.end\(\)\);", "return;")
+    # the same buffer as a std::string(n, '\\0'), and the two ways of returning it: as the string itself, or through
+    # c_str() / data() - i.e. a conversion from const char* that stops at the first NUL byte ([string.cons])
+    r.add("R9.str.ctor", r"std::string v\(\(size_t\)\(size\), '\\0'\);", "char *v = out->data; out->len = (size_t)(size); VERIF_STD_PRE(out->len <= out->cap, \"ghost result buffer large enough\");")
+    r.add("R9.str.self", r"\breturn v;", "return;")
+    r.add("R9.str.cstr", r"\breturn (?:std::string\()?v\.(?:c_str|data)\(\)\)?;", "out->len = verif_strnlen(v, out->len); return;")
     r.add("R4.skip_bom", r"(?<![\w.>])skip_bom\(infile\)", "skip_bom(infile)")
     return r
 
@@ -64,6 +70,8 @@ def build(prop, tier="quick"):
     kb.emit_stub("long vifs_tellg(vifs *f)", c.fn, "vifs_tellg")
     c = C("vifs_open_ate")
     kb.emit_stub("void vifs_open_ate(vifs *f)", c.fn, "vifs_open_ate")
+    c = C("verif_strnlen")
+    kb.emit_stub("size_t verif_strnlen(const char *s, size_t n)", c.fn, "verif_strnlen")
     kb.add("bool skip_bom(vifs *infile);")
     sl = en.slice_function("static bool skip_bom(std::ifstream &infile)")
     c = C("skip_bom")
@@ -78,14 +86,16 @@ def build(prop, tier="quick"):
         return b2
 
     kb.emit_function("void load_file(vifs *infile, vstr *out)", sl, rules(), c.fn, c.loops, "load_file", pre=pre, ghost=c.ghost)
-    for need in ("R9.ifs.ctor", "R9.ifs.tellg", "R9.vec.ctor", "R9.str.range", "R9.str.empty", "R9.ifs.read"):
-        if kb.rules_fired.get(need, 0) < 1:
-            raise ExtractionBreak("load_file/skip_bom: rule %s did not fire" % need)
+    for need in ("R9.ifs.ctor", "R9.ifs.tellg", ("R9.vec.ctor", "R9.str.ctor"), ("R9.str.range", "R9.str.self", "R9.str.cstr"), "R9.str.empty", "R9.ifs.read"):
+        alts = need if isinstance(need, tuple) else (need,)
+        if sum(kb.rules_fired.get(a, 0) for a in alts) < 1:
+            raise ExtractionBreak("load_file/skip_bom: rule %s did not fire" % "|".join(alts))
     stubs = ["vifs_read", "vifs_seekg", "vifs_tellg", "vifs_open_ate"]
+    lf_extra = ["verif_strnlen"] if kb.rules_fired.get("R9.str.cstr", 0) else []  # a callee can only be replaced where it is called
     kb.add('void h_skip_bom(void) { vifs *f; skip_bom(f); VERIF_CANARY("skip_bom returns normally"); }')
     kb.targets.append(Target("skip_bom", "h_skip_bom", replace=stubs))
     kb.add('void h_load_file(void) { vifs *f; vstr *o; load_file(f, o); VERIF_CANARY("load_file returns normally"); }')
-    kb.targets.append(Target("load_file", "h_load_file", replace=stubs + ["skip_bom"]))
+    kb.targets.append(Target("load_file", "h_load_file", replace=stubs + ["skip_bom"] + lf_extra))
     model_fact(kb)
     kb.functions += ["vifs_read/vifs_seekg/vifs_tellg/vifs_open_ate (assumed contracts: model of std::ifstream)"]
     kb.assumptions += [
